@@ -113,6 +113,41 @@ def main():
     for i in range(3, -1, -1):
         for j in range(3, i - 1, -1):
             ob('round_trip/upper_cholesky_factor_unique[%d,%d]' % (i, j), V[i][j] == U[i][j], hyp)
+    # (a') the REAL cholesky_decompose_upper, traced with np.linalg.cholesky replaced by its assumed contract (a symbolic
+    #      triangular factor F of its argument, positive diagonal: F F^T == A, or F^T F == A when called with upper=True),
+    #      must return an upper-triangular W with positive diagonal and W W^T == J
+    chol_facts = []
+
+    def fake_cholesky(A, upper=False):
+        n = A.shape[0]
+        Fm = np.zeros((n, n), dtype=object)
+        for i in range(n):
+            for j in range(n):
+                if (j <= i and not upper) or (j >= i and upper):
+                    Fm[i, j] = pt.Sym(z3.Real('chol_%d%d' % (i, j)), tr)
+        Ft = lambda i, j: T(Fm[i, j]) if isinstance(Fm[i, j], pt.Sym) else z3.RealVal(0)
+        for i in range(n):
+            chol_facts.append(Ft(i, i) > 0)
+            for j in range(n):
+                prod = sum(Ft(k, i) * Ft(k, j) for k in range(n)) if upper else sum(Ft(i, k) * Ft(j, k) for k in range(n))
+                chol_facts.append(prod == T(A[i, j]))
+        return Fm
+    saved_chol = np.linalg.cholesky
+    try:
+        np.linalg.cholesky = fake_cholesky
+        with pt.patched_numpy():
+            W = mm.cholesky_decompose_upper(J)
+        Wt = lambda i, j: T(W[i, j]) if isinstance(W[i, j], pt.Sym) else tr.lift(W[i, j])
+        for i in range(4):
+            ob('cholesky_decompose_upper/positive_diagonal[%d]' % i, Wt(i, i) > 0, chol_facts)
+            for j in range(4):
+                if j < i:
+                    ob('cholesky_decompose_upper/upper_triangular[%d,%d]' % (i, j), Wt(i, j) == 0, chol_facts)
+                ob('cholesky_decompose_upper/W_Wt_equals_J[%d,%d]' % (i, j), sum(Wt(i, k) * Wt(j, k) for k in range(4)) == T(J[i][j]), chol_facts)
+    except Exception as e:      # noqa
+        chk.undecided.append('tracing cholesky_decompose_upper failed: %r' % e)
+    finally:
+        np.linalg.cholesky = saved_chol
     # (b) with that factor, the REAL theta_from_pseudoinertia returns theta (np.log assumed inverse of np.exp)
     Uarr = np.array([[pt.Sym(z3.simplify(tr.lift(0) + U[i][j]) if not isinstance(U[i][j], int) else z3.RealVal(0), tr) for j in range(4)] for i in range(4)], dtype=object)
     saved = mm.cholesky_decompose_upper
